@@ -425,7 +425,9 @@ pub fn finish(ctx: &Ctx, fin: Finish) -> i32 {
         "wall_s": wall,
         "violations": new_violations.len(),
     });
-    let evdir = format!("{VERIF_ROOT}/evidence");
+    // VERIF_EVIDENCE_DIR: used by the seeded-change tools so that a run against a deliberately broken
+    // tree does not overwrite the evidence of the real tree
+    let evdir = std::env::var("VERIF_EVIDENCE_DIR").unwrap_or_else(|_| format!("{VERIF_ROOT}/evidence"));
     let _ = std::fs::create_dir_all(&evdir);
     let evpath = format!("{evdir}/{}.json", ctx.property);
     if let Err(e) = std::fs::write(&evpath, serde_json::to_string_pretty(&evidence).unwrap()) {
